@@ -123,18 +123,20 @@ type c03Env struct {
 	m    *RoutingMatcher
 	text string
 
-	now        uint64
-	alive      map[uint32]bool
-	mapFull    bool
-	connMax    uint32
-	domains    map[netip.Addr]string
-	bitmapKeys map[netip.Addr][]byte
-	socks      []ksSock
-	flows      []*c03Flow
-	trace      []string
-	cls        map[string]int
-	f8Excluded int
-	f9Excluded int
+	now          uint64
+	alive        map[uint32]bool
+	mapFull      bool
+	connMax      uint32
+	domains      map[netip.Addr]string
+	bitmapKeys   map[netip.Addr][]byte
+	socks        []ksSock
+	flows        []*c03Flow
+	trace        []string
+	cls          map[string]int
+	f8Excluded   int
+	f9Excluded   int
+	aimProc      bool // histories aimed at process-name rules on the WAN-egress hook
+	lastWanKnown bool
 
 	// optional layer: real eBPF maps mirroring kernsim's, read by the real Go retrieval code
 	real     *c03RealMaps
@@ -511,7 +513,7 @@ type c03FrameOpts struct {
 	Flags     uint8 // TCP flags
 	Payload   int
 	FragOff   uint16 // != 0: non-initial fragment
-	FragHdr   bool   // IPv6: fragment header with offset 0 in the chain (first fragment)
+	FragHdr   bool   // first fragment: offset 0 with "more fragments" set (IPv4 MF / IPv6 fragment header with M); carries the whole L4 header
 	Cut       int    // > 0: truncate the frame to Cut bytes
 	Reverse   bool
 	HookL2    bool
@@ -519,7 +521,7 @@ type c03FrameOpts struct {
 }
 
 func (e *c03Env) frame(f *c03Flow, o *c03FrameOpts) ([]byte, uint32) {
-	p := ksPkt{L2: o.HookL2, V6: f.V6, Proto: f.proto(), TCPFlags: o.Flags, Dscp: f.Pk.Dscp, IHL: f.IHL, FragOff: o.FragOff,
+	p := ksPkt{L2: o.HookL2, V6: f.V6, Proto: f.proto(), TCPFlags: o.Flags, Dscp: f.Pk.Dscp, IHL: f.IHL, FragOff: o.FragOff, MoreFrag: o.FragHdr,
 		Payload: make([]byte, o.Payload)}
 	for i := range p.Payload {
 		p.Payload[i] = byte(i)
@@ -967,6 +969,16 @@ func c03GenFlows(t *rapid.T, e *c03Env) {
 	used := map[string]bool{}
 	for i := 0; i < 4; i++ {
 		pk := vrGenPacketSeeds(t, e.prog, seeds)
+		if e.aimProc {
+			// sockets of known processes (names the rules mention) next to sockets nobody registered
+			pk.Pname = [16]byte{}
+			if i%2 == 0 || rapid.IntRange(0, 3).Draw(t, "known_proc") == 0 {
+				copy(pk.Pname[:], rapid.SampledFrom(e.prog.Vocab.Pnames).Draw(t, "procname"))
+			}
+			if rapid.IntRange(0, 3).Draw(t, "aim_tcp") > 0 {
+				pk.L4 = "tcp"
+			}
+		}
 		f := &c03Flow{ID: i, Pk: pk, TCP: pk.L4 == "tcp"}
 		f.Pk.Dscp &= 63 // six bits on the wire
 		f.V6 = !pk.Dst.Addr().Unmap().Is4()
@@ -986,6 +998,9 @@ func c03GenFlows(t *rapid.T, e *c03Env) {
 			f.Pk.Dst = netip.AddrPortFrom(f.Pk.Dst.Addr(), c03TproxyP+1)
 		}
 		f.Origin = rapid.SampledFrom([]int{c03OrigLan, c03OrigLan, c03OrigWan, c03OrigWan, c03OrigInLocal, c03OrigInLan}).Draw(t, "origin")
+		if e.aimProc {
+			f.Origin = c03OrigWan
+		}
 		// distinct five-tuples, also against each other's reverse
 		for {
 			a := fmt.Sprint(f.Pk.L4, f.Pk.Src, f.Pk.Dst)
@@ -1013,6 +1028,9 @@ func c03GenFlows(t *rapid.T, e *c03Env) {
 			f.ProcName = strings.TrimRight(string(f.Pk.Pname[:]), "\x00")
 			if f.Origin == c03OrigWan {
 				f.DaeKind = rapid.SampledFrom([]int{0, 0, 0, 0, 1, 2, 3}).Draw(t, "daekind")
+				if e.aimProc {
+					f.DaeKind = 0
+				}
 				if f.DaeKind == 2 && e.sockMark == 0 {
 					f.DaeKind = 3
 				}
